@@ -365,8 +365,14 @@ class StmtOps:
         entry_env = dict(st.env)
         for name in sorted(mods):
             st.env[name] = self.fresh_like(name, st.env[name], types.get(name))
-        heap_mods = set(ann.get('modifies', [])) | stored_attrs(body)
-        self.havoc_heap(sorted(heap_mods))
+        items = list(ann.get('modifies', []))
+        covered = set()
+        for it in items:
+            if not (it.startswith('dict(') or it.startswith('list(') or it.startswith('ghost:') or it.startswith('heap:') or it == 'alloc'):
+                covered.add(it.rsplit('.', 1)[-1])
+        self.havoc_modifies(items, st.env)
+        self.havoc_heap(sorted(stored_attrs(body) - covered))
+        self.havoc_heap(['alloc'])
         i = st.decls.const('i', 'Int')
         st.assume(mk_le('0', i), 'loop')
         if count is not None:
